@@ -11,7 +11,7 @@
 (* TLC judges every line: the verdict of the real ante handler against     *)
 (* Verdict(shape), the observed lane markers against Lane(shape), and which*)
 (* message handler ran.  A broken law does not stop the run: all are       *)
-(* reported, one string "LAWBROKEN|line|group|detail" each.                  *)
+(* reported, one string "LAWBROKEN|line|group|detail" each.                *)
 (***************************************************************************)
 EXTENDS Lanes, Json
 
